@@ -264,7 +264,12 @@ func runSCIONServer(ctx context.Context, log *slog.Logger, mtrcs *scionServerMet
 
 			hasE2E := len(decoded) >= 3 &&
 				decoded[len(decoded)-2] == slayers.LayerTypeEndToEndExtn
-			if len(oob) != 0 {
+			// The length of an end-to-end header is encoded in one byte, in units
+			// of 4 bytes: a header that has no room left for the timestamp option
+			// (2 bytes, the data, up to 3 bytes of padding) is forwarded as it is.
+			hasRoom := !hasE2E ||
+				(int(e2eLayer.ExtLen)+1)*4+2+len(oob)+3 <= 256*4
+			if len(oob) != 0 && hasRoom {
 				tsOpt.OptType = scion.OptTypeTimestamp
 				tsOpt.OptData = oob
 				tsOpt.OptAlign[0] = 0
